@@ -48,6 +48,7 @@ type Mark struct {
 	ElemSize int    `json:"elem_size,omitempty"` // len: Go size in bytes of one element the decoder allocates
 	ElemMin  int    `json:"elem_min,omitempty"`  // len: minimum encoded size of one element
 	MaxBits  int    `json:"max_bits,omitempty"`  // cint: width in bits of the field the value is stored in
+	IsMap    bool   `json:"is_map,omitempty"`    // len: the count of a dictionary (the decoder passes it to make(map, n))
 }
 
 // Writer accumulates bytes and marks.
@@ -411,6 +412,8 @@ func (w *Writer) Value(v reflect.Value, path string) {
 		}
 		sort.Strings(keys)
 		w.Len(path, len(keys), typeOf[types.ByteSequence]())
+		w.Marks[len(w.Marks)-1].IsMap = true
+		w.Marks[len(w.Marks)-1].ElemSize = 40
 		for _, k := range keys {
 			p := fmt.Sprintf("%s[%x]", path, trunc(k))
 			w.Field(p)
@@ -538,6 +541,8 @@ func (w *Writer) mapValue(v reflect.Value, path string) {
 		sort.Slice(es, func(i, j int) bool { return bytes.Compare(es[i].kb, es[j].kb) < 0 })
 	}
 	w.Len(path, len(es), t.Elem())
+	w.Marks[len(w.Marks)-1].IsMap = true
+	w.Marks[len(w.Marks)-1].ElemSize = int(t.Key().Size() + t.Elem().Size())
 	for _, e := range es {
 		p := fmt.Sprintf("%s[%x]", path, e.kb[:min(len(e.kb), 8)])
 		w.Field(p)
